@@ -28,7 +28,12 @@ pub struct Fault {
     pub code: Option<&'static str>,
     /// file-level faults: the codes one of which must be reported for that file
     pub file_codes: Vec<&'static str>,
+    /// a valid companion that is related to the fault by name (declares what the faulty unit lacks,
+    /// or uses the same names): state must not leak from it into the judgement of the faulty unit
+    pub related: Option<Decl>,
 }
+
+const RELATED: usize = usize::MAX - 1;
 
 fn companions_pool() -> Vec<Decl> {
     vec![
@@ -67,7 +72,14 @@ fn dup_forms(name: &str) -> Vec<(&'static str, &'static str, String, String)> {
 
 pub fn faults() -> Vec<Fault> {
     let mut out = vec![];
-    let one = |kind: &str, words: &str, code: &'static str| Fault { kind: kind.into(), decls: vec![d("Faulty", "decl", words)], file_level: false, code: Some(code), file_codes: vec![] };
+    let one = |kind: &str, words: &str, code: &'static str, related: Option<&str>| Fault {
+        kind: kind.into(),
+        decls: vec![d("Faulty", "decl", words)],
+        file_level: false,
+        code: Some(code),
+        file_codes: vec![],
+        related: related.map(|w| d("Related", "decl", w)),
+    };
     // file-level
     for (kind, text, codes) in [
         ("file:invalid-character", "FUNCTION_BLOCK Bad1 VAR a : INT ; END_VAR a := ? ; END_FUNCTION_BLOCK", vec!["P0031"]),
@@ -75,18 +87,25 @@ pub fn faults() -> Vec<Fault> {
         ("file:unclosed-comment", "FUNCTION_BLOCK Bad3 END_FUNCTION_BLOCK (* never closed", vec!["P0001", "P0031", "P0002"]),
         ("file:stray-token", "END_VAR", vec!["P0002"]),
     ] {
-        out.push(Fault { kind: kind.into(), decls: vec![d("BadFile", "file", text)], file_level: true, code: None, file_codes: codes });
+        out.push(Fault { kind: kind.into(), decls: vec![d("BadFile", "file", text)], file_level: true, code: None, file_codes: codes, related: None });
     }
     // declaration-level faults that do not depend on other declarations
-    out.push(one("decl:P0003-duplicate-struct-element", "TYPE BadSt : STRUCT x : INT ; x : BOOL ; END_STRUCT ; END_TYPE", "P0003"));
-    out.push(one("decl:P0004-subrange-limits", "TYPE BadRng : INT ( 10 .. -10 ) ; END_TYPE", "P0004"));
-    out.push(one("decl:P0005-duplicate-enum-value", "TYPE BadEn : ( A2 , A2 ) := A2 ; END_TYPE", "P0005"));
-    out.push(one("decl:P0016-constant-without-initial-value", "FUNCTION_BLOCK BadK VAR CONSTANT k : INT ; END_VAR END_FUNCTION_BLOCK", "P0016"));
-    out.push(one("decl:P0016-in-function", "FUNCTION BadFn : INT VAR CONSTANT k : INT ; END_VAR BadFn := 1 ; END_FUNCTION", "P0016"));
+    out.push(one("decl:P0003-duplicate-struct-element", "TYPE BadSt : STRUCT x : INT ; x : BOOL ; END_STRUCT ; END_TYPE", "P0003", Some("TYPE GoodSt : STRUCT x : INT ; y : BOOL ; END_STRUCT ; END_TYPE")));
+    out.push(one("decl:P0004-subrange-limits", "TYPE BadRng : INT ( 10 .. -10 ) ; END_TYPE", "P0004", Some("TYPE GoodRng : INT ( -10 .. 10 ) ; END_TYPE")));
+    out.push(one("decl:P0005-duplicate-enum-value", "TYPE BadEn : ( A2 , A2 ) := A2 ; END_TYPE", "P0005", Some("TYPE GoodEn : ( A2 , B2 ) := A2 ; END_TYPE")));
+    out.push(one(
+        "decl:P0016-constant-without-initial-value",
+        "FUNCTION_BLOCK BadK VAR CONSTANT k : INT ; END_VAR END_FUNCTION_BLOCK",
+        "P0016",
+        Some("FUNCTION_BLOCK GoodK VAR CONSTANT k : INT := 1 ; END_VAR END_FUNCTION_BLOCK"),
+    ));
+    out.push(one("decl:P0016-in-function", "FUNCTION BadFn : INT VAR CONSTANT k : INT ; END_VAR BadFn := 1 ; END_FUNCTION", "P0016", Some("FUNCTION GoodFn : INT VAR CONSTANT k : INT := 2 ; END_VAR GoodFn := k ; END_FUNCTION")));
     out.push(one(
         "decl:P0011-undefined-task",
         "CONFIGURATION badcfg RESOURCE r ON PLC PROGRAM p WITH nope : Main ; END_RESOURCE END_CONFIGURATION",
         "P0011",
+        // a valid configuration that declares a task of the very name the faulty one lacks
+        Some("CONFIGURATION goodcfg RESOURCE r2 ON PLC TASK nope ( PRIORITY := 1 ) ; PROGRAM p2 WITH nope : Main ; END_RESOURCE END_CONFIGURATION"),
     ));
     // P0017 needs the callee to exist: a self-contained pair
     out.push(Fault {
@@ -95,6 +114,7 @@ pub fn faults() -> Vec<Fault> {
         file_level: false,
         code: Some("P0017"),
         file_codes: vec![],
+        related: Some(d("GoodFbK", "fb", "FUNCTION_BLOCK GoodFbK VAR i : Inner7 ; END_VAR END_FUNCTION_BLOCK")),
     });
     // duplicates: same kind
     let forms = dup_forms("Dup");
@@ -106,6 +126,7 @@ pub fn faults() -> Vec<Fault> {
                 file_level: false,
                 code: None,
                 file_codes: vec![],
+                related: None,
             });
         }
     }
@@ -121,6 +142,7 @@ pub fn faults() -> Vec<Fault> {
                 file_level: false,
                 code: None,
                 file_codes: vec![],
+                related: None,
             });
         }
     }
@@ -153,6 +175,8 @@ fn texts_of(f: &Fault, pool: &[Decl], c: &CaseSpec) -> Vec<String> {
             f.decls[*idx].clone()
         } else if *idx == usize::MAX {
             name_user("Dup", f.decls[0].kind).unwrap_or_else(|| pool[0].clone())
+        } else if *idx == RELATED {
+            f.related.clone().unwrap_or_else(|| pool[0].clone())
         } else {
             pool[*idx].clone()
         };
@@ -174,7 +198,15 @@ fn run_case(f: &Fault, pool: &[Decl], c: &CaseSpec) -> Outcome {
         ironplcc::verif::set_order(None);
         r
     });
-    let companions_shape = if c.companions.is_empty() { "alone" } else if c.companions.contains(&usize::MAX) { "with-companions-using-the-name" } else { "with-valid-companions" };
+    let companions_shape = if c.companions.is_empty() {
+        "alone"
+    } else if c.companions.contains(&usize::MAX) {
+        "with-companions-using-the-name"
+    } else if c.companions.contains(&RELATED) {
+        "with-a-related-valid-declaration"
+    } else {
+        "with-valid-companions"
+    };
     let layout = if files.len() == 1 { "one-file" } else { "several-files" };
     match r {
         Err(p) => Outcome { key: Some(format!("{}+{}#panic@{}", f.kind, companions_shape, p.loc)), what: format!("semantic() panicked at {}", p.loc), class: "panic" },
@@ -227,6 +259,11 @@ pub fn cases(thorough: bool) -> (Vec<Fault>, Vec<Decl>, Vec<CaseSpec>) {
         if f.kind.starts_with("duplicate") && name_user("Dup", f.decls[0].kind).is_some() {
             lists.push(vec![usize::MAX]);
             lists.push(vec![0, usize::MAX]);
+        }
+        if f.related.is_some() {
+            lists.push(vec![RELATED]);
+            lists.push(vec![0, RELATED]);
+            lists.push(vec![0, 1, 2, 3, RELATED]);
         }
         for comps in &lists {
             if comps.len() > max_comp + 1 && !thorough {
